@@ -46,7 +46,7 @@ Csv == \E m \in Modes : \E d \in Descs :
          /\ rows' = (IF m = "w" THEN <<H>> \o Rows(d)
                      ELSE IF exists /\ Fault # "append_always_header" THEN rows \o Rows(d)
                      ELSE rows \o <<H>> \o Rows(d))
-         /\ uids' = Blank(Len(rows'))
+         /\ uids' = (IF m = "w" THEN Blank(Len(rows')) ELSE uids \o Blank(Len(rows') - Len(rows)))
          /\ exists' = TRUE /\ ret' = None /\ Step(Op("csv", m, d)) /\ UNCHANGED <<writer, uid>>
 WInit == \E m \in Modes : \E u \in {-1, 27} :
            /\ writer = "none"
